@@ -151,7 +151,7 @@ def run_property(spec, tier, seed, extract=None):
                     else:
                         hits.append(hit)
             if mo is not None:
-                d = core.first_diff(io, mo)
+                d = core.first_diff(core.compared(io), mo)
                 if d is not None:
                     disagreements.append((es, h, d, io, mo))
 
@@ -162,12 +162,12 @@ def run_property(spec, tier, seed, extract=None):
             hh = [History(ops)]
             a = core.run_side(core.impl_cmd(es.name), hh, timeout=120)[0]
             b = core.run_side(core.model_cmd(es.name), hh, timeout=120)[0]
-            return core.first_diff(a, b) is not None
+            return core.first_diff(core.compared(a), b) is not None
         small = core.shrink(es.name, h, still, budget=60 if tier == "quick" else 200)
         hh = [History(small)]
         a = core.run_side(core.impl_cmd(es.name), hh, timeout=120)[0]
         b = core.run_side(core.model_cmd(es.name), hh, timeout=120)[0]
-        dd = core.first_diff(a, b) or d
+        dd = core.first_diff(core.compared(a), b) or d
         key = (es.name, small[dd[0]].split(" ")[0] if dd[0] < len(small) else "?")
         if key in seen_dis:
             continue
